@@ -21,6 +21,8 @@ func main() {
 		cmdVerify(os.Args[2:])
 	case "check":
 		os.Exit(cmdCheck(os.Args[2:]))
+	case "sigs":
+		os.Exit(cmdSigs())
 	default:
 		fmt.Fprintln(os.Stderr, "unknown command", os.Args[1])
 		os.Exit(2)
